@@ -27,13 +27,24 @@ assert SM.__file__.endswith(".py") and Code.__file__.endswith(".py"), (SM.__file
 StringIOTree = SM.StringIOTree
 CCodeWriter = Code.CCodeWriter
 
-def text(fid, nl):
+class SrcDesc(object):
+    def get_escaped_description(self):
+        return "src"
+SRC = SrcDesc()
+FRAG = {}     # fragment id -> (kind, newlines, position)
+
+def text(fid, nl=None):
+    kind, nl, p = FRAG[fid]
+    if kind == "putln":
+        return ('\n#line %d "src"\n' % p if nl == 3 else "") + "F%d;" % fid + "\n"
     return "F%d;" % fid + "\n" * nl
 
 def posval(p):
-    return None if p == 0 else ("src", p, 0)
+    return None if p == 0 else (SRC, p, 0)
 def marker(p):
     return [None, 0] if p == 0 else ["src", p]
+def normm(m):
+    return [None if m[0] is None else ("src" if m[0] is SRC else m[0]), m[1]]
 
 class TreeLevel:
     """drives raw StringIOTree objects the way CCodeWriter does"""
@@ -44,6 +55,14 @@ class TreeLevel:
         t = self.h[h]
         t.markers.extend([marker(p)] * nl)
         t.write(text(fid, nl))
+    def putln(self, h, fid, nl, p):
+        t = self.h[h]
+        if nl == 3:
+            t.markers.extend([marker(p)] * 2)
+            t.write('\n#line %d "src"\n' % p)
+        t.write("F%d;" % fid)
+        t.markers.extend([marker(p)])
+        t.write("\n")
     def mark(self, h, p):
         self.pos[h] = p
     def ip(self, h, h2):
@@ -62,20 +81,25 @@ class TreeLevel:
             return ("copyto!=getvalue", out.getvalue(), v)
         return v
     def markers(self, h):
-        return [list(m) for m in self.h[h].allmarkers()]
+        return [normm(m) for m in self.h[h].allmarkers()]
     def empty(self, h):
         return self.h[h].empty()
 
 class WriterLevel(TreeLevel):
     """drives CCodeWriter.write / insertion_point / new_writer / insert"""
     def __init__(self):
+        class _CC(object):
+            emit_linenums = True
+            emit_code_comments = False
         class _GS(object):
-            code_config = None
+            code_config = _CC()
         w = CCodeWriter()
         w.set_global_state(_GS())
         self.h = {1: w}
     def write(self, h, fid, nl, p):
         self.h[h].write(text(fid, nl))
+    def putln(self, h, fid, nl, p):
+        self.h[h].putln("F%d;" % fid)
     def mark(self, h, p):
         self.h[h].last_marked_pos = posval(p)
     def ip(self, h, h2):
@@ -94,7 +118,7 @@ class WriterLevel(TreeLevel):
             return ("copyto!=getvalue", out.getvalue(), v)
         return v
     def markers(self, h):
-        return [list(m) for m in self.h[h].buffer.allmarkers()]
+        return [normm(m) for m in self.h[h].buffer.allmarkers()]
     def empty(self, h):
         return self.h[h].buffer.empty()
 
@@ -106,8 +130,11 @@ def replay(hist, level):
         op, h, a, b = st["op"], st["h"], st["a"], st["b"]
         try:
             if op == "write":
-                nf += 1; nls[nf] = a
+                nf += 1; nls[nf] = a; FRAG[nf] = ("write", a, b)
                 d.write(h, nf, a, b)
+            elif op == "putln":
+                nf += 1; nls[nf] = a; FRAG[nf] = ("putln", a, b)
+                d.putln(h, nf, a, b)
             elif op == "mark": d.mark(h, a)
             elif op == "ip": d.ip(h, a)
             elif op == "new": d.new(h, a)
@@ -183,7 +210,7 @@ def run(tier, seed):
     # 1. exhaustive model check (deeper bound, no dump)
     deep = core.tlc_or_die("CodeBuf", cfg="CodeBuf" if tier == "quick" else "CodeBuf_deep", coverage=True, timeout=3000)
     cov["tlc"].append(dict(deep.summary(), config="MaxH=3 MaxLen=%d NLs={0,1} Poses={0,1}" % (5 if tier == "quick" else 6)))
-    for act in ("DoWrite", "DoMark", "DoIP", "DoNew", "DoInsert", "DoCommit"):
+    for act in ("DoWrite", "DoPutLn", "DoMark", "DoIP", "DoNew", "DoInsert", "DoCommit"):
         if deep.coverage.get(act, (0, 0))[1] == 0:
             core.die("vacuous model: action %s never taken" % act)
     # 2. exhaustive histories for replay
@@ -221,7 +248,7 @@ def run(tier, seed):
         "rule": "histories = all action sequences of the spec up to the dump bound (exhaustive) + TLC -simulate behaviours of "
                 "length 30 over 6 handles; each replayed on raw StringIOTree and on CCodeWriter; non-trivial = contains an "
                 "insertion point or a subtree insertion and at least one write",
-        "action_coverage": {k: v[1] for k, v in deep.coverage.items() if k in ("DoWrite", "DoMark", "DoIP", "DoNew", "DoInsert", "DoCommit")},
+        "action_coverage": {k: v[1] for k, v in deep.coverage.items() if k in ("DoWrite", "DoPutLn", "DoMark", "DoIP", "DoNew", "DoInsert", "DoCommit")},
         "simulated_behaviours": len(sim.printed),
         "binding_selftest": {"corrupted": len(bad), "rejected": rejected},
         "samples": [[{k: s[k] for k in ("op", "h", "a", "b")} for s in h] for h in rng.sample(hists, 2) + sim.printed[:1]],
